@@ -15,7 +15,9 @@ from vp import sim as S
 from vp import invariants as I
 
 ID = 'C04'
-RULE = ('Linear regime: valid chains (no self-locking mating), constant load (below or above stall, either sign), '
+RULE = ('Linear regime: valid chains (no self-locking mating; or, in a seventh of the cases, a self-locking worm drive driven '
+        'forward below stall from a non-negative speed - it never locks - after the same Solver held it with a zero duty '
+        'cycle in a throw-away run before a reset), constant load (below or above stall, either sign), '
         'constant duty cycle outside the dead zone (the motor\'s preset duty cycle, a ConstantPWM rule covering the whole '
         'horizon, or a motor without current data; D of either sign), no stop condition. Rate constant k = E R^2 '
         'Tmax(D) / (D w0 J_eq) recomputed from the case; horizon 3..6 / k; FOUR simulations per case with steps dt0 / 2^j, '
@@ -58,6 +60,7 @@ def check(case) -> Result:
     unit = case['dt_unit']
     errs_w, errs_th = [], []
     last = mdl.n - 1
+    shared = {}
     for j in range(4):
         dt_si = dt0 / 2 ** j
         n = n0 * 2 ** j
@@ -72,6 +75,8 @@ def check(case) -> Result:
         else:
             hist = [{'op': 'run', 'dt': dt, 'T': [dt[0] * n, unit], 'control': ctl}]
         c = dict(case, history=hist)
+        if case.get('shared_init'):
+            c['_shared_init'] = shared
         if case['duty']['how'] == 'rule':
             c['control'] = [{'rule': 'constant', 'start': [0, 'sec'],
                              'duration': G.qty('TimeInterval', dt_si * n * 2, 'sec'), 'value': case['duty']['value']}]
@@ -104,6 +109,21 @@ def check(case) -> Result:
                     S.run_op(b, hist[0])
                     traces = [S.Trace(b)]
                     res.classes += ('efficiency-redeclared',)
+                except Exception as e:  # noqa
+                    err = e
+            elif case.get('prelocked') and not sp and not c.get('stop'):
+                # a self-locking drive first held by a zero duty cycle for a few steps (throw-away run), then reset and
+                # driven forward by the SAME Solver: from there on the motion is the linear one
+                pl = case['prelocked']
+                b = S.build(dict(c, motor=dict(c['motor'], pwm0=0)))
+                traces, err = [], None
+                try:
+                    S.run_op(b, {'op': 'run', 'dt': dt, 'T': [dt[0] * pl['steps'], unit]})
+                    b.case = c
+                    S.run_op(b, {'op': 'reset', 'reinit': True})
+                    S.run_op(b, hist[0])
+                    traces = [S.Trace(b)]
+                    res.classes += ('held-then-reset-then-driven',)
                 except Exception as e:  # noqa
                     err = e
             elif c.get('stop'):
@@ -168,6 +188,13 @@ def check(case) -> Result:
             return res
         errs_w.append(abs(w[idx] - w_ref[idx]))
         errs_th.append(abs(th[idx] - th_ref[idx]))
+    if shared.get('objs') and not res.violations:
+        # the objects the user handed in as initial conditions are still what they were
+        p_, w_ = shared['objs']
+        if [p_.value, p_.unit] != list(case['init']['pos']) or [w_.value, w_.unit] != list(case['init']['speed']):
+            res.bad('C04/initial-condition-object-mutated', f'the AngularPosition / AngularSpeed objects handed in as initial '
+                    f'conditions now read {p_!r}, {w_!r} (were {case["init"]})')
+        res.classes += ('shared-initial-condition-objects',)
     usable = 0
     if len(errs_w) == 4 and not res.violations:
         eps = 2.0 ** -52
@@ -255,7 +282,7 @@ def check_deadzone(case) -> Result:
 
 @st.composite
 def s_deadzone(draw, max_len=4):
-    case = draw(s_case(max_len))
+    case = draw(s_case(max_len, prelocked=False))
     if case['duty']['how'] == 'no-currents' or M.Model(case).i0 is None:
         case['motor'] = draw(G.s_motor(currents=True))
         case['duty']['how'] = draw(st.sampled_from(['preset', 'rule']))
@@ -270,7 +297,35 @@ def s_deadzone(draw, max_len=4):
 
 
 @st.composite
-def s_case(draw, max_len=5):
+def s_prelocked(draw, max_len=4):
+    """self-locking worm drive, driven forward below stall from a non-negative speed: it never locks, the motion is the
+    linear one; the same Solver held it (duty cycle 0) in a throw-away run before the reset"""
+    case = {'motor': draw(G.s_motor(currents=True)),
+            'chain': draw(G.s_chain(max_len=max_len, worm='yes', locking=True))}
+    mdl = M.Model(case)
+    dz = mdl.i0 / mdl.imax
+    D = dz + (1 - dz) * draw(st.floats(0.3, 1.0))
+    case['duty'] = {'how': 'preset', 'value': D}
+    case['motor']['pwm0'] = D
+    stall = mdl.stall_out * MO.tmax_d(D, mdl.Tmax, mdl.i0, mdl.imax) / mdl.Tmax
+    case['load'] = {'c0': stall * draw(st.floats(0.0, 0.8)), 'cw': 0.0, 'csin': 0.0, 'kpos': 1.0, 'ct': 0.0, 'period': 1.0,
+                    'unit': draw(G.s_unit('Torque'))}
+    case['init'] = {'pos': G.qty('AngularPosition', draw(st.floats(-50, 50)), draw(G.s_unit('AngularPosition'))),
+                    'speed': G.qty('AngularSpeed', mdl.noload_out * D * draw(st.floats(0.0, 0.9)), draw(G.s_unit('AngularSpeed')))}
+    case['kdt0'] = draw(st.floats(0.05, 0.2))
+    case['n0'] = max(4, int(draw(st.floats(3, 6)) / case['kdt0']))
+    case['dt_unit'] = draw(G.s_unit('TimeInterval'))
+    case['history'] = []
+    case['prelocked'] = {'steps': draw(st.integers(2, 6))}
+    return case
+
+
+@st.composite
+def s_case(draw, max_len=5, prelocked=True):
+    if prelocked and draw(st.integers(0, 6)) == 0:
+        pc = draw(s_prelocked(min(max_len, 4)))
+        if M.Model(pc).self_locking and not M.Model(pc).locking_ambiguous:
+            return pc
     how = draw(st.sampled_from(['preset', 'rule', 'no-currents']))
     case = {'motor': draw(G.s_motor(currents=how != 'no-currents')),
             'chain': draw(G.s_chain(max_len=max_len, worm=draw(st.sampled_from(['no', 'maybe', 'yes'])), locking=False))}
@@ -292,6 +347,8 @@ def s_case(draw, max_len=5):
     case['init'] = {'pos': G.qty('AngularPosition', draw(st.floats(-50, 50)), draw(G.s_unit('AngularPosition'))),
                     'speed': G.qty('AngularSpeed', mdl.noload_out * draw(st.floats(-0.5, 1.5)), draw(G.s_unit('AngularSpeed')))}
     G.add_variants(draw, case)
+    if draw(st.integers(0, 2)) == 0:
+        case['shared_init'] = True       # one AngularPosition / AngularSpeed object reused for all four simulations
     case['kdt0'] = draw(st.floats(0.05, 0.2))
     case['n0'] = max(4, int(draw(st.floats(3, 6)) / case['kdt0']))
     case['dt_unit'] = draw(G.s_unit('TimeInterval'))
